@@ -786,7 +786,7 @@ pub fn run_shard(ctx: &mut Ctx) {
         crate::props::pvote::run(ctx, n, &mut r);
     }
     if ctx.prop == "C11" || ctx.prop == "C02" {
-        let n = if ctx.tier == Tier::Quick { 1 } else { 12 };
+        let n = if ctx.tier == Tier::Quick { 3 } else { 40 };
         let t0 = ctx.t0;
         let b = ctx.budget_s;
         crate::props::maxbatch::run(&mut ctx.out, n, &mut r, &|| util::now_s() - t0 < b);
